@@ -196,6 +196,8 @@ impl FeatureState for TravelLimitState {
                     job_tw.start - duration + (job_tw.end - job_tw.start) / 2., // middle
                 ]
                 .into_iter()
+                // do not depart before the shift starts
+                .map(|departure_time| departure_time.max(start_place.time.earliest.unwrap_or(0.)))
                 // do not depart outside allowed time
                 .filter(|&departure_time| {
                     let start_latest = start_place.time.latest.unwrap_or(f64::MAX);
